@@ -175,6 +175,21 @@ CHECKS = {
         note="JSON stores most structured arrays as positional records (values compared position by position); numpy "
              "longdouble is compared after rounding to double; depth <=3, <=2 (3) leaves per generated dictionary.",
     ),
+    "C13": dict(
+        category="fault_enumeration",
+        technique="Signal action of NestedSampler.tla model checked by TLC (safe at boundaries, unsafe inside the critical "
+                  "section as the code allows); a real handler call is injected before every distinct source line of "
+                  "an iteration and of finalise (sys.settrace), the run is resumed and the whole history validated by "
+                  "TLC against TraceNestedSampler.tla",
+        text="TLC classifies every program counter of the iteration as safe/unsafe for a signal followed by a resume; "
+             "the harness enumerates the source lines actually executed in a flow-phase iteration (training and a "
+             "population inside) and in finalise, and for each runs the real history: handler (SIGTERM/SIGINT/SIGALRM, "
+             "two exit codes), exit status, checkpoint present, resume in a fresh process, run to the end; TLC then "
+             "evaluates the recorded-once / counts / live-set / valid-result clauses on the resumed history.",
+        design_ref="DESIGN.md 4 C13",
+        note=NS_NOTE + " Standard sampler; the handler is invoked from a line trace hook (= between bytecodes, before a "
+             "source line). Known findings mid_iteration_pickle:* identified by region and shape of the pickled state.",
+    ),
 }
 
 NOT_YET = {k: 'check not built yet (work in progress; see DESIGN.md 8 for the order of work)' for k in ['C01', 'C02', 'C03', 'C05', 'C09', 'C10', 'C11', 'C12', 'C13', 'C14', 'C15', 'C16', 'C17', 'C18', 'C19', 'C20']}
